@@ -33,7 +33,10 @@ opposite order, inputs where two things that are usually different coincide (sam
 a term that is its own replacement, root == leaf, both arguments the same object).
 Stay inside the property's quantifier: the violating input must be one the statement covers."""
 
+ONLY = set(sys.argv[2:])  # optional: restrict the round to these property ids
 for pid in sorted(props):
+    if ONLY and pid not in ONLY:
+        continue
     p = props[pid]
     wt = f"{BASE}/{pid}"
     out = f"{BASE}/{pid}-out"
